@@ -273,34 +273,43 @@ def units(tier, seed):
         keep = [((2,), (2,)), ((2, 2), (2,)), ((2,), (2, 2)), ((1, 2), (2, 1)), ((2, 1), (1, 2)),
                 ((), (2,)), ((2,), ()), ((2,), (3, 1, 2)), ((3, 1, 2), (2,)), ((2, 2), (2, 2)), ((), ())]
         pairs = [p for p in pairs if p in keep]
-    for op in ('add', 'sub', 'mul', 'div'):
-        for ls, rs in pairs:
-            add('utpm %s utpm/%s,%s/D%d,P%d' % (op, ls, rs, D, P), 'h_binop', op=op, lkind='utpm', rkind='utpm',
-                lshape=ls, rshape=rs, D=D, P=P)
-            add('utpm %s ndarray/%s,%s/D%d,P%d' % (op, ls, rs, D, P), 'h_binop', op=op, lkind='utpm', rkind='ndarray',
-                lshape=ls, rshape=rs, D=D, P=P)
-            add('ndarray %s utpm/%s,%s/D%d,P%d' % (op, ls, rs, D, P), 'h_binop', op=op, lkind='ndarray', rkind='utpm',
-                lshape=ls, rshape=rs, D=D, P=P)
-        # a constant array whose leading axis equals P
-        add('utpm %s ndarray/(2,),(P,2)' % op, 'h_binop', op=op, lkind='utpm', rkind='ndarray', lshape=(2,), rshape=(P, 2), D=D, P=P)
-        add('ndarray %s utpm/(P,2),(2,)' % op, 'h_binop', op=op, lkind='ndarray', rkind='utpm', lshape=(P, 2), rshape=(2,), D=D, P=P)
-        add('ndarray %s utpm/(P,),()' % op, 'h_binop', op=op, lkind='ndarray', rkind='utpm', lshape=(P,), rshape=(), D=D, P=P)
-        for sk in ('pyscalar', 'pyint', 'npscalar', 'npint', 'npfloat32', 'pybool', 'nd0', 'npint8'):
-            for sh in ((), (2,), (2, 2)) if sk in ('pyscalar', 'pyint', 'npscalar', 'npint') else ((), (2,)):
-                add('utpm %s %s/%s' % (op, sk, sh), 'h_binop', op=op, lkind='utpm', rkind=sk, lshape=sh, rshape=(), D=D, P=P)
-                add('%s %s utpm/%s' % (sk, op, sh), 'h_binop', op=op, lkind=sk, rkind='utpm', lshape=(), rshape=sh, D=D, P=P)
-        # in-place forms
-        for rk, rs in (('utpm', (2,)), ('utpm', (1,)), ('utpm', ()), ('ndarray', (2,)), ('pyscalar', ()), ('npscalar', ()), ('utpm', (2, 2)),
-                       ('pyint', ()), ('npint', ()), ('npfloat32', ()), ('nd0', ()), ('ndarray', (1,))):
-            for ls in ((2,), (2, 2)):
-                add('utpm %s= %s/%s,%s' % (op, rk, ls, rs), 'h_binop', op=op, lkind='utpm', rkind=rk, lshape=ls, rshape=rs,
-                    D=D, P=P, form='inplace')
-        # real / complex mixes
-        for lk, rk in (('utpm', 'utpm'), ('utpm', 'ndarray'), ('ndarray', 'utpm'), ('utpm', 'pyscalar'), ('pyscalar', 'utpm'),
-                       ('utpm', 'npscalar'), ('npscalar', 'utpm')):
-            for lc, rc in ((False, True), (True, False), (True, True)):
-                add('%s %s %s/complex(%s,%s)' % (lk, op, rk, lc, rc), 'h_binop', op=op, lkind=lk, rkind=rk,
-                    lshape=(2,), rshape=(2,), D=D, P=(1 if tier == 'quick' else 2), lc=lc, rc=rc)
+    D0, P0 = D, P
+    for (D, P) in ([(D0, P0)] if tier == 'quick' else [(D0, P0), (10, 2), (14, 1)]):
+      base_add = add
+      if (D, P) != (D0, P0):
+        def add(name, func, _D=D, _P=P, **kw):
+            base_add(name + ' [D%d,P%d]' % (_D, _P), func, **kw)
+      if True:
+        for op in ('add', 'sub', 'mul', 'div'):
+            for ls, rs in pairs:
+                add('utpm %s utpm/%s,%s/D%d,P%d' % (op, ls, rs, D, P), 'h_binop', op=op, lkind='utpm', rkind='utpm',
+                    lshape=ls, rshape=rs, D=D, P=P)
+                add('utpm %s ndarray/%s,%s/D%d,P%d' % (op, ls, rs, D, P), 'h_binop', op=op, lkind='utpm', rkind='ndarray',
+                    lshape=ls, rshape=rs, D=D, P=P)
+                add('ndarray %s utpm/%s,%s/D%d,P%d' % (op, ls, rs, D, P), 'h_binop', op=op, lkind='ndarray', rkind='utpm',
+                    lshape=ls, rshape=rs, D=D, P=P)
+            # a constant array whose leading axis equals P
+            add('utpm %s ndarray/(2,),(P,2)' % op, 'h_binop', op=op, lkind='utpm', rkind='ndarray', lshape=(2,), rshape=(P, 2), D=D, P=P)
+            add('ndarray %s utpm/(P,2),(2,)' % op, 'h_binop', op=op, lkind='ndarray', rkind='utpm', lshape=(P, 2), rshape=(2,), D=D, P=P)
+            add('ndarray %s utpm/(P,),()' % op, 'h_binop', op=op, lkind='ndarray', rkind='utpm', lshape=(P,), rshape=(), D=D, P=P)
+            for sk in ('pyscalar', 'pyint', 'npscalar', 'npint', 'npfloat32', 'pybool', 'nd0', 'npint8'):
+                for sh in ((), (2,), (2, 2)) if sk in ('pyscalar', 'pyint', 'npscalar', 'npint') else ((), (2,)):
+                    add('utpm %s %s/%s' % (op, sk, sh), 'h_binop', op=op, lkind='utpm', rkind=sk, lshape=sh, rshape=(), D=D, P=P)
+                    add('%s %s utpm/%s' % (sk, op, sh), 'h_binop', op=op, lkind=sk, rkind='utpm', lshape=(), rshape=sh, D=D, P=P)
+            # in-place forms
+            for rk, rs in (('utpm', (2,)), ('utpm', (1,)), ('utpm', ()), ('ndarray', (2,)), ('pyscalar', ()), ('npscalar', ()), ('utpm', (2, 2)),
+                           ('pyint', ()), ('npint', ()), ('npfloat32', ()), ('nd0', ()), ('ndarray', (1,))):
+                for ls in ((2,), (2, 2)):
+                    add('utpm %s= %s/%s,%s' % (op, rk, ls, rs), 'h_binop', op=op, lkind='utpm', rkind=rk, lshape=ls, rshape=rs,
+                        D=D, P=P, form='inplace')
+            # real / complex mixes
+            for lk, rk in (('utpm', 'utpm'), ('utpm', 'ndarray'), ('ndarray', 'utpm'), ('utpm', 'pyscalar'), ('pyscalar', 'utpm'),
+                           ('utpm', 'npscalar'), ('npscalar', 'utpm')):
+                for lc, rc in ((False, True), (True, False), (True, True)):
+                    add('%s %s %s/complex(%s,%s)' % (lk, op, rk, lc, rc), 'h_binop', op=op, lkind=lk, rkind=rk,
+                        lshape=(2,), rshape=(2,), D=D, P=(1 if tier == 'quick' else 2), lc=lc, rc=rc)
+      add = base_add
+    D, P = D0, P0
     # operands of extreme magnitude (2**600, 2**-600): intermediate squares over/underflow in floats
     for op in ('mul', 'div'):
         for k in (600, -600):
